@@ -223,6 +223,10 @@ def run(ctx):
     run_sig_streams(ctx, st_sig, st_ids, ctx.n(80, 2000), ctx.n(30, 400))
     stream_rename(ctx)
     stream_results_names(ctx)
+    # values follow NAMES also over histories of models sharing a sub-formula (stream shared with C01): a model built later with
+    # another numbering of the same parameters must not change which value a name receives in simulate / create_function / get_value_c
+    from props import C01
+    C01.stream_models(ctx)
 
 
 def replay(ctx, path):
